@@ -247,7 +247,11 @@ def validate_traces(module, cfg, trace_files, timeout=900, heap="3g", par=None, 
             rep = r.printed("VBAD")
             done = r.printed("VDONE")
             if r.error or not done or done[-1].get("consumed") != n:
-                raise Infra("trace monitor %s did not consume %s (%d lines): rc=%d\n%s" % (module, tf, n, r.rc, r.out[-3000:]))
+                i = r.out.find("Error:")
+                keep = os.path.join(tempfile.gettempdir(), "verif-failed-trace.ndjson")
+                shutil.copyfile(tf, keep)
+                raise Infra("trace monitor %s did not consume %s (%d lines, copy kept at %s): rc=%d\n%s" % (
+                    module, tf, n, keep, r.rc, r.out[i:i + 2500] if i >= 0 else r.out[-2500:]))
             for b in (rep[-1] if rep else []):
                 b["file"] = tf
                 bad.append(b)
